@@ -73,5 +73,9 @@ type Result struct {
 	Probes      map[string]int `json:"probes,omitempty"`
 	Nontrivial  bool           `json:"nontrivial"`
 	Events      int            `json:"events"`
+	// SchedDigest hashes the order in which the Go scheduler ran goroutines during
+	// the plan (goroutine ids are assigned in creation order, which is itself part
+	// of the schedule); SchedSteps is the number of scheduling decisions.
+	SchedDigest string `json:"sched_digest,omitempty"`
+	SchedSteps  uint64 `json:"sched_steps,omitempty"`
 }
-
